@@ -714,6 +714,7 @@ class Gen(object):
         self.rev = 0
         self.secret = bytes(r.getrandbits(8) for _ in range(32))
         self.tokens = {}
+        self._captcha_n = 0
         self.guest = 0
         self.net = r.choice([b"robustirc.net", b"irc.example.org", b"n"])
         self.chans = r.sample(CHAN_POOL, r.randint(2, 5))
@@ -918,7 +919,7 @@ class Gen(object):
         self.entries.append({"k": r.choice(["G", "G", "P"]), "sid": r.choice(pool)})
 
     # ---- captcha
-    def _token(self, kind=None, cmd=b"join", arg=b""):
+    def _token(self, kind=None, cmd=b"join", arg=b"", shape=None):
         r = self.rng
         kind = kind or r.choice(["ok", "ok", "ok", "mutated", "replayed", "expired", "garbage", "future", "shape"])
         ns = self.ts - r.randint(0, 200) * SEC
@@ -945,9 +946,10 @@ class Gen(object):
         elif kind == "shape":
             # purposes that start with "okay:" but do not have the four fields okay:<command>:<lastactivity>:<argument>,
             # correctly signed, signed with another key, or not signed at all
-            purpose = r.choice([b"okay:", b"okay:join", b"okay:join:", b"okay::", b"okay:join:%d" % ns, b"okay:join:%d:#a:b" % ns,
-                                b"okay:join:soon:" + arg, b"okay:join:99999999999999999999:" + arg, b"okay:join: %d:%s" % (ns, arg),
-                                b"okay:join:-1:" + arg, b"okay:join:+%d:%s" % (ns, arg), b"okay:join:0x10:" + arg])
+            purposes = [b"okay:", b"okay:join", b"okay:join:", b"okay::", b"okay:join:%d" % ns, b"okay:join:%d:#a:b" % ns,
+                        b"okay:join:soon:" + arg, b"okay:join:99999999999999999999:" + arg, b"okay:join: %d:%s" % (ns, arg),
+                        b"okay:join:-1:" + arg, b"okay:join:+%d:%s" % (ns, arg), b"okay:join:0x10:" + arg]
+            purpose = purposes[shape % len(purposes)] if shape is not None else r.choice(purposes)
             k = r.random()
             if k < 0.5:
                 tok = captcha_token(self.secret, purpose, b"%08x" % r.getrandbits(32))
@@ -1540,8 +1542,19 @@ class Gen(object):
             ns = self._C()
             if ns is not None:
                 nick = r.choice([n for n in self.nicks if not any(z.alive and z.nick and nick_to_lower(z.nick) == nick_to_lower(n) for z in self.sess)] or [b"Fresh1"])
-                how = r.choice(["nick", "nick", "user", "none", "pass"])
-                if how == "nick":
+                how = r.choice(["nick", "nick", "user", "none", "pass", "nick2", "nick2"])
+                if how == "nick2":
+                    # the same nickname in two spellings (case, []\\ vs {}|) before the registration completes, then USER: the
+                    # session must own exactly one index entry, and nobody else may get a third spelling
+                    sp = self._scramble(nick)
+                    M(ns, b"NICK " + nick)
+                    M(ns, b"NICK " + (sp if sp != nick else nick.swapcase()))
+                    if r.random() < 0.6:
+                        M(ns, b"USER u 0 * :r")
+                    M(o, b"WHOIS " + nick)
+                    M(x, b"NICK " + self._scramble(nick))
+                    M(o, b"PRIVMSG %s :which one" % nick)
+                elif how == "nick":
                     M(ns, b"NICK " + nick)
                 elif how == "user":
                     M(ns, b"USER u 0 * :r")
@@ -1579,12 +1592,19 @@ class Gen(object):
                 cfg["caphmac"], cfg["capurl"] = self.secret, b"http://captcha.example"
                 self._F(cfg)
             M(o, b"MODE %s +x" % c)
-            both = r.random() < 0.5
+            self._captcha_n = getattr(self, "_captcha_n", 0) + 1
+            both = self._captcha_n % 2 == 0          # alternate: +x alone first, then +i and +x
             if both:
                 # both gates: a solved captcha does not replace the invitation
                 M(o, b"MODE %s +i" % c)
                 M(x, b"JOIN %s %s" % (c, self._token("ok", cmd=b"join", arg=c)))
                 M(x, b"PART " + c)
+            if not both:
+                # a walk through ALL malformed purposes (the captcha test is only reached when nothing else refuses the JOIN)
+                order = list(range(12))
+                r.shuffle(order)
+                for i_ in order:
+                    M(x, b"JOIN %s %s" % (c, self._token("shape", cmd=b"join", arg=c, shape=i_)))
             if not both and r.random() < 0.4:
                 M(o, b"MODE %s +b %s" % (c, r.choice([(x.nick or b"x") + b"!*@*", b"*!*@" + x.ra, b"*!*@robust/0x%x" % x.sid, b"*!*@*"])))
             if not both and r.random() < 0.3:
@@ -1594,8 +1614,6 @@ class Gen(object):
             kinds = r.sample(["replayed", "expired", "mutated", "garbage", "shape", "shape"], r.randint(1, 4)) + [r.choice(["ok", "future", "ok"])]
             if r.random() < 0.3:
                 r.shuffle(kinds)
-            if r.random() < 0.5:
-                kinds = ["shape"] * r.randint(6, 14) + kinds      # a walk through the malformed purposes
             for kd in kinds:
                 M(x, b"JOIN %s %s" % (c, self._token(kd, cmd=b"join", arg=c)), big=r.random() < 0.15)
                 if r.random() < 0.3:
@@ -1815,10 +1833,19 @@ class Gen(object):
         """a short history built around one kind of scene (every kind is exercised in every run, see run_irc_check)"""
         r = self.rng
         self._reset()
-        self._setup(r.randint(4, 7), r.random() < 0.7, r.random() < 0.7)
+        self._setup(r.randint(5, 8), r.random() < 0.7, r.random() < 0.7)
         for _ in range(r.randint(2, 4)):
             for _ in range(r.randint(3, 10)):
                 self._action()
+            # a scene needs a channel with two members and a registered outsider: top the population up when sessions have
+            # quit or never registered
+            tries = 0
+            while len(self._alive(True)) < 4 and tries < 6:
+                tries += 1
+                ns = self._C()
+                if ns is not None:
+                    for l in self._register(ns):
+                        self._M(ns, l)
             self.scene(name)
         for _ in range(r.randint(3, 10)):
             self._action()
